@@ -65,20 +65,33 @@ def fill_model(sP, sQ, ro, s):
 
 
 def build_fill_world(repo, it: Interp, sP, sQ, ro, typ):
+    dna_mod, dna_cls = repo.module(DNA), repo.cls(DNA, "DynamicNumpyArray")
+    empty = lambda: it.instantiate(ClassV(dna_cls, dna_mod), [(num(10), num(2))], {})
     ex = W.obj_of(repo, FUT, "FuturesExchange", "exchange", {
         "name": "Sandbox", "type": "futures", "fee_rate": A("f"), "settlement_currency": "USDT",
         "assets": {"USDT": A("Wt"), "BTC": num(0)}, "temp_reduced_amount": {"BTC": A("T"), "USDT": num(0)},
+        "buy_orders": {"BTC": empty()}, "sell_orders": {"BTC": empty()},
         "futures_leverage": A("lev"), "futures_leverage_mode": "cross"})
     strat = Obj("Strategy", name="strategy", attrs={"leverage": A("lev"), "timeframe": "1m", "name": "S", "trades_count": num(0)}, open_world=True)
     pos = W.obj_of(repo, POSITION, "Position", "position", {
         "qty": R.const(sP) * A("P"), "previous_qty": num(0), "entry_price": A("E") if sP != 0 else None, "exit_price": None,
         "current_price": A("cp"), "opened_at": None, "closed_at": None, "exchange": ex, "exchange_name": "Sandbox",
         "symbol": SYM, "strategy": strat, "id": "pos"})
-    W.bind(strat, "_on_updated_position", lambda i, a, k: i.event("strategy_hook", pos.attrs["qty"], pos.attrs["previous_qty"]))
+    def held_rows(i):
+        out = {}
+        for side in ("buy", "sell"):
+            t = ex.attrs[side + "_orders"]["BTC"]
+            n = int(t.attrs["index"].const_value()) + 1
+            out[side] = [tuple(r.items) for r in t.attrs["array"].rows[:n]]
+        return out
+    W.bind(strat, "_on_updated_position", lambda i, a, k: i.event("strategy_hook", pos.attrs["qty"], pos.attrs["previous_qty"], held_rows(i)))
+    it.held_rows = held_rows
     trades = Obj("ClosedTrades", name="store.completed_trades", attrs={})
     W.bind(trades, "open_trade", lambda i, a, k: i.event("trade", "open_trade"))
     W.bind(trades, "close_trade", lambda i, a, k: i.event("trade", "close_trade"))
     W.bind(trades, "add_order_record_only", lambda i, a, k: i.event("trade", "entry_of_next_trade", a[3]))
+    next_trade = Obj("ClosedTrade", name="next-trade", attrs={"orders": []}, open_world=True)
+    W.bind(trades, "_get_current_trade", lambda i, a, k: next_trade)
     it.overrides[f"{W.STORE}:store"] = Obj("StoreClass", name="store", attrs={"completed_trades": trades}, open_world=True)
     side = W.enum_value(repo, "sides", "BUY" if sQ > 0 else "SELL")
     o = W.make_order(repo, "O", side, W.enum_value(repo, "order_types", typ), R.const(sQ) * A("Q"), A("p"),
@@ -137,6 +150,19 @@ def check_fills(repo, rep):
                                 probs.append(f"a flip must be reported as a close (size 0) followed by an open (size {p_exp!r}); the strategy was notified with sizes {seen}")
                             elif any(e[0] in ("trade",) or (e[0] == "store" and e[1] in ("position", "exchange")) for e in out.events[hooks[1] + 1:]):
                                 probs.append("strategy notified before the position was fully updated")
+                            else:
+                                # while the close is reported the rest of the order is held like a resting order (an order submitted
+                                # by a hook of the close is margin-checked against what is really left), and it is released afterwards
+                                rest = R.const(sP) * A("P") + R.const(sQ) * A("Q")
+                                side_ = "buy" if sQ > 0 else "sell"
+                                held = out.events[hooks[0]][3]
+                                want_rows = [(rest, A("p"))]
+                                got_rows = held.get(side_, [])
+                                if len(got_rows) != 1 or not all(isinstance(x, R) and x.same(y) for x, y in zip(got_rows[0], want_rows[0])) or held.get("sell" if side_ == "buy" else "buy"):
+                                    probs.append(f"during the close event of a flip the margin of the rest of the order ({rest!r} @ p) is not held: reservation ledger {held}")
+                                after = out.interp.held_rows(out.interp)
+                                if after["buy"] or after["sell"]:
+                                    probs.append(f"the held rest of a flipping order is not released after the new position is open: {after}")
                         elif len(hooks) != 1:
                             probs.append(f"strategy notified {len(hooks)} times")
                         elif any(e[0] in ("trade",) or (e[0] == "store" and e[1] in ("position", "exchange")) for e in out.events[hooks[0] + 1:]):
